@@ -200,9 +200,10 @@ def _terminal(block) -> bool:
 class _Guards:
     """rewrites one function; `known` = NNF texts of the if-tests the reference knows for it"""
 
-    def __init__(self, known, raw=None):
+    def __init__(self, known, raw=None, known_ifelse=()):
         self.known = set(known)
         self.raw = raw or {}
+        self.known_ifelse = set(known_ifelse)
         self.n = 0
 
     def neg(self, test):
@@ -216,6 +217,9 @@ class _Guards:
         self.have = set(if_tests(fn))
         self._block(fn.body, "return")
         self._drop_trailing_return(fn.body)
+        for n in ast.walk(fn):
+            if isinstance(n, (ast.For, ast.AsyncFor, ast.While)):
+                self._drop_trailing(n.body, "continue")
         if self.n:
             ast.fix_missing_locations(fn)
 
@@ -231,6 +235,18 @@ class _Guards:
             self._drop_trailing_return(last.body)
             self._drop_trailing_return(last.orelse)
 
+    def _drop_trailing(self, block, kind):
+        if not block:
+            return
+        last = block[-1]
+        if _is_bare(last, kind) and len(block) > 1:
+            block.pop()
+            self.n += 1
+            self._drop_trailing(block, kind)
+        elif isinstance(last, ast.If):
+            self._drop_trailing(last.body, kind)
+            self._drop_trailing(last.orelse, kind)
+
     def _wanted(self, test, negated: bool) -> bool:
         """the (possibly negated) test is a shape the reference knows and the function does not contain yet, while the current
         orientation is unknown to the reference"""
@@ -239,7 +255,14 @@ class _Guards:
             return cur not in self.known and other in self.known
         return False
 
-    def _block(self, block, kind):
+    def _block(self, block, kind, _again=True):
+        n_before = self.n
+        self._block_once(block, kind)
+        if self.n != n_before and _again:
+            # a rewrite moved statements into new blocks: give those a turn too
+            self._block(block, kind, _again=False)
+
+    def _block_once(self, block, kind):
         # recurse first
         for s in block:
             if isinstance(s, _FUNCS):
@@ -251,8 +274,10 @@ class _Guards:
                 self._block(s.body, "continue")
                 self._block(s.orelse, kind)
             elif isinstance(s, ast.If):
-                self._block(s.body, None)
-                self._block(s.orelse, None)
+                # an if in tail position of the block: leaving its branches is leaving the block
+                tail_kind = kind if (s is block[-1] and not (kind == "return" and False)) else None
+                self._block(s.body, tail_kind)
+                self._block(s.orelse, tail_kind)
             elif isinstance(s, (ast.With, ast.AsyncWith)):
                 self._block(s.body, None)
             elif isinstance(s, ast.Try):
@@ -284,6 +309,14 @@ class _Guards:
                                 self.n += 1
                                 changed = True
                                 break
+                # G4: `if T: body; continue|return` + rest  ->  `if T: body else: rest`  when the reference has this test as an if/else
+                if kind is not None and len(s.body) >= 2 and _is_bare(s.body[-1], kind) and rest and nnf_text(s.test) in self.known_ifelse \
+                        and not (kind == "return" and tail is not None) and not any(isinstance(x, _FUNCS) for x in rest):
+                    new = ast.copy_location(ast.If(test=s.test, body=s.body[:-1], orelse=rest), s)
+                    block[i:] = [new]
+                    self.n += 1
+                    changed = True
+                    break
                 # G3: `if T: <block that always leaves>` + rest  ->  `if not T: rest else: <block>`  (any terminal block: raise, return x, ...)
                 if s.body and _terminal(s.body) and rest and self._wanted(s.test, True) and not any(isinstance(x, _FUNCS) for x in rest):
                     new = ast.copy_location(ast.If(test=self.neg(s.test), body=rest, orelse=s.body), s)
@@ -938,7 +971,8 @@ def normalise_guards(tree: ast.Module, modname: str) -> int:
         known = tests.get(key)
         if known is None:
             continue
-        g = _Guards(set(known), ref().get("if_tests_raw", {}).get(key, {}))
+        ifelse = {nnf_text(ast.parse(t, mode="eval").body) for t in ref().get("shapes", {}).get(key, {}).get("if_else_tests", [])}
+        g = _Guards(set(known), ref().get("if_tests_raw", {}).get(key, {}), ifelse)
         g.run(fn)
         n += g.n
     return n
